@@ -736,6 +736,9 @@ def run(ctx: Ctx):
     # Is(...) parts below lists / tuples / dict displays / constructor calls nested in each other vs Model/Nest.v
     from .. import nestassign as na
     na.check_part(ctx, 400 if not ctx.thorough else 5000, "C10", unm_choices=(0.25, 0.4))
+    # `in` snapshots whose previous value is no list display, with and without user-controlled members, vs Model/CollReplace.v
+    from .. import collreplace as cr
+    cr.check_part(ctx, 120 if not ctx.thorough else 1600, "C10")
     # snapshots that are evaluated but never compared, nested values: what update does vs Model/Undecided.v
     na.check_never(ctx, 200 if not ctx.thorough else 2500, "C10")
 
@@ -744,6 +747,9 @@ def replay(ctx: Ctx, data):
     if isinstance(data.get("case"), dict) and data["case"].get("kind") == "twins":
         from .. import twins
         return twins.replay(data["case"])
+    if isinstance(data.get("case"), dict) and data["case"].get("kind") == "collreplace":
+        from .. import collreplace as cr
+        return cr.replay_case(data["case"]["case"])
     if isinstance(data.get("case"), dict) and data["case"].get("kind") == "nest":
         from .. import nestassign as na
         return na.replay_case(data["case"])
